@@ -1,9 +1,25 @@
 import UF.Driver.Decode
+import UF.Model.Match
+import UF.Spec.Match
 /- Ops of work group E (see notes/AGENT_GUIDE.md). Return `none` for ops of other groups. -/
 namespace UF.Ops
 
+/-- `c04.match <R> <Q> <psl> <addrs> (<pat>…)`: model = `NetRule.matches`, spec = `specMatch`
+    (from the modifier values); `ood` outside the request domain of C04. -/
+def opC04Match (args : List W) : String :=
+  match args with
+  | [r, q, psl, addrs, pats] =>
+    match decNetRule r, decRequest q, decPslTable psl, decAddrTable addrs, decPatTable pats with
+    | some r, some q, some psl, some addrs, some pats =>
+      if !q.inDomainB then "ood ood" else
+      let ext := mkExt psl addrs pats
+      outBool (r.matches ext q) ++ " " ++ outBool (specMatch ext r q)
+    | _, _, _, _, _ => "bad-decode"
+  | _ => "bad-arity"
+
 def dispatchE (op : String) (args : List W) : Option String :=
-  match op, args with
-  | _, _ => none
+  match op with
+  | "c04.match" => some (opC04Match args)
+  | _ => none
 
 end UF.Ops
